@@ -54,12 +54,48 @@ def replay_ladder_histories(ctx, props):
         for step in json.loads(line)['hist']:
             if step['a'] == 'toggle':
                 rec.add('Toggle', props, nt=True, **actions.toggle(step['arg']))
+            elif step['a'] == 'bad':        # a table the encoder must refuse, in the middle of the history
+                from abstraction import concrete
+                rec.add('EncodeValue', props, nt=True, **actions.encode_value(concrete(step['v']), 'top'))
             else:
                 x = int.from_bytes(bytes(step['mag']), 'big') * (-1 if step['neg'] else 1)
                 shape = (i + x) % 3
                 v = x if shape == 0 else ([x, {'k': x}] if shape == 1 else {'a': [x]})
                 rec.add('EncodeValue', props, nt=True, **actions.encode_value(v, 'top'))
     rec.add('Toggle', props, **actions.toggle('false'))
+
+
+def replay_small_values(ctx, props, both_modes=False):
+    """S2C: every value of the small domain of MC_Values (TLC-generated, bounded-exhaustive), through the real code"""
+    import json
+    from abstraction import concrete
+    path = ctx.gen.get('small_values')
+    if not path:
+        return
+    for i, line in enumerate(open(path)):
+        if mine(ctx, i):
+            v = concrete(json.loads(line)['v'])
+            ctx.rec.add('EncodeValue', props, nt=True, **actions.encode_value(v, 'top'))
+    if both_modes:
+        ctx.rec.add('Toggle', props, **actions.toggle('true'))
+        for i, line in enumerate(open(path)):
+            if mine(ctx, i) and i % 4 == 0:
+                v = concrete(json.loads(line)['v'])
+                ctx.rec.add('EncodeValue', props, nt=True, **actions.encode_value(v, 'top'))
+        ctx.rec.add('Toggle', props, **actions.toggle('false'))
+
+
+def small_frames(ctx):
+    """S2C: every frame of the small domain of MC_Frames as real objects: (frame object, abstract)"""
+    import json
+    from abstraction import concrete_frame
+    path = ctx.gen.get('small_frames')
+    out = []
+    if path:
+        for i, line in enumerate(open(path)):
+            if mine(ctx, i):
+                out.append(concrete_frame(json.loads(line)['f']))
+    return out
 
 
 FIXED = ['short_int', 'short_uint', 'long_int', 'long_uint', 'long_long_int']
@@ -126,6 +162,7 @@ def drive_c03(ctx):
     import decimal
     rec, rng = ctx.rec, ctx.rng
     P = ['C03']
+    replay_small_values(ctx, P)
     for i, v in enumerate(small_shapes()):
         if mine(ctx, i):
             rec.add('EncodeValue', P, nt=True, **actions.encode_value(v, 'top'))
@@ -168,6 +205,11 @@ def method_roundtrips(ctx, props, per_class):
 
 @driver('C01')
 def drive_c01(ctx):
+    from pamqp import base as _base
+    for f in small_frames(ctx):
+        if isinstance(f, _base.Frame):
+            for ch in (1, 65535):
+                ctx.rec.add('RoundTrip', ['C01'], nt=True, **actions.roundtrip(f, ch))
     method_roundtrips(ctx, ['C01'], 6 if ctx.quick else 120)
     # table arguments holding values that compare equal but differ in type, side by side
     for i, grp in enumerate(gen.CONFUSABLE):
@@ -229,6 +271,10 @@ def drive_c18(ctx):
     from pamqp import body, header, heartbeat
     rec, rng = ctx.rec, ctx.rng
     P = ['C18']
+    from pamqp import base as _base
+    for f in small_frames(ctx):
+        if not isinstance(f, _base.Frame) and type(f).__name__ != 'ContentHeader':
+            rec.add('RoundTrip', P, nt=True, **actions.roundtrip(f, rng.choice([0, 1, 65535])))
     lens = list(range(1, 65)) + [4088, 4089, 4095, 4096, 4097, 4104, 65535, 65536]
     if not ctx.quick:
         lens += [131064, 131071, 131072] + [rng.randint(65, 20000) for _ in range(40)]
@@ -255,6 +301,16 @@ def drive_c18(ctx):
     rec.add('RoundTrip', P, **actions.roundtrip(heartbeat.Heartbeat(), rng.choice([0, 1, 65535])))
     for _ in range(3 if ctx.quick else 60):
         content_session(ctx, P)
+    # histories of frames whose (type, channel, size) triples coincide when any field is truncated to 16 bits or
+    # shifted into a neighbour: a small body on channel c|1, then a body 65536 bytes longer on channel c, ...
+    if ctx.shard in (1, 2, 3):
+        c, L = [(6, 65541), (0, 131072), (4, 70000)][ctx.shard - 1]
+        small = body.ContentBody(bytes(rng.getrandbits(8) for _ in range(max(1, L - 65536))))
+        bigb = bytes(rng.getrandbits(8) for _ in range(L))
+        rec.add('RoundTrip', P, nt=True, **actions.roundtrip(small, c | 1))
+        rec.add('RoundTrip', P, nt=True, **actions.roundtrip(body.ContentBody(bigb), c))
+        rec.add('RoundTrip', P, nt=True, **actions.roundtrip(body.ContentBody(bigb), c | 2))
+        rec.add('RoundTrip', P, nt=True, **actions.roundtrip(small, c))
     # protocol header: each octet 0..255 exhaustively (768), random triples, pairs (thorough)
     triples = []
     for pos in range(3):
@@ -275,6 +331,9 @@ def drive_c04(ctx):
     from pamqp import heartbeat, header
     rec, rng = ctx.rec, ctx.rng
     P = ['C04']
+    for f in small_frames(ctx):
+        rec.add('RoundTrip', P, nt=True, **actions.roundtrip(f, rng.choice([1, 65535])))
+    replay_small_values(ctx, P, both_modes=True)
     method_roundtrips(ctx, P, 3 if ctx.quick else 60)
     for _ in range(120 if ctx.quick else 3000):
         rec.add('RoundTrip', P, nt=True, **actions.roundtrip(framegen.rand_header(rng), framegen.rand_channel(rng)))
@@ -376,6 +435,37 @@ def drive_c14(ctx):
     for cname, cid, _ in framegen.cat.CATALOG:
         k = getattr(commands, cname)
         rec.add('ClassEntry', P, nt=True, name=cname, frame_id=as_int(k.frame_id), index=as_int(k.index))
+    # the catalogue is constant under use: decode / re-encode a few hundred frames of every kind (also ones a peer may
+    # send and this side would not: deprecated fields set, cluster_id present), then read the whole catalogue AGAIN
+    import wiregen
+    from pamqp import frame as _frame
+    urng = ctx.rng
+    for _ in range(150 if ctx.quick else 1500):
+        try:
+            n_, ch_, fo = _frame.unmarshal(wiregen.rand_wire_frame(urng, lenient=True))
+            _frame.marshal(fo, ch_)
+        except Exception:  # noqa
+            pass
+        try:
+            f_, c_ = framegen.rand_frame(urng)
+            _frame.unmarshal(_frame.marshal(f_, c_))
+        except Exception:  # noqa
+            pass
+    items2 = list(commands.INDEX_MAPPING.items())
+    rec.add('MappingKeys', P, nt=True, second_pass=True, keys=sorted(as_int(k) for k, _ in items2), n=len(items2))
+    for key, cls in items2:
+        slots = list(cls.__slots__)
+        rec.add('CatalogEntry', P, nt=True, second_pass=True, sigx=str(cls.name), key=as_int(key), name=str(cls.name),
+                frame_id=as_int(cls.frame_id), index=as_int(cls.index), slots=slots,
+                types=[str(getattr(cls, '_' + a, '<missing>')) for a in slots], sync=bool(cls.synchronous),
+                sync_is_bool=isinstance(cls.synchronous, bool), responses=[str(x) for x in cls.valid_responses],
+                defaults=[], docs=[], attributes=list(cls.attributes()))
+    slots = list(pr.__slots__)
+    o = pr()
+    rec.add('PropertiesEntry', P, nt=True, second_pass=True, name=str(pr.name), frame_id=as_int(pr.frame_id), index=as_int(pr.index),
+            slots=slots, types=[str(getattr(pr, '_' + a, '<missing>')) for a in slots],
+            flags=[as_int(pr.flags.get(a, -1)) for a in slots], nflags=len(pr.flags),
+            defaults=[abstract(getattr(o, a, None)) for a in slots])
     # the RPC metadata in use: a client that decides ONLY from the class attributes (Rpc.tla)
     rng = ctx.rng
     classes = [c for _, c in items]
@@ -428,6 +518,29 @@ def drive_c17(ctx):
         'FRAME_END_CHAR': _l(constants.FRAME_END_CHAR), 'REPLY_SUCCESS': as_int(constants.REPLY_SUCCESS)})
     rec.add('UnmarshalingExc', P, nt=True, base=issubclass(exceptions.UnmarshalingException, exceptions.PAMQPException),
             amqp=issubclass(exceptions.UnmarshalingException, exceptions.AMQPError))
+    # every code 0..700 looked up in the three ways a client can (subscript, in, get); then the whole table AGAIN:
+    # looking codes up must not change what any code maps to
+    sub_ok, cont, get_ok, other = [], [], [], []
+    for code in range(0, 701):
+        try:
+            exceptions.CLASS_MAPPING[code]
+            sub_ok.append(code)
+        except KeyError:
+            pass
+        except Exception:  # noqa
+            other.append(code)
+        if code in exceptions.CLASS_MAPPING:
+            cont.append(code)
+        if exceptions.CLASS_MAPPING.get(code) is not None:
+            get_ok.append(code)
+    rec.add('UndefinedCodes', P, nt=True, subscript_ok=sub_ok, contains=cont, get_ok=get_ok, other_exc=other)
+    items = list(exceptions.CLASS_MAPPING.items())
+    rec.add('ReplyKeys', P, nt=True, keys=sorted(as_int(k) for k, _ in items), classes=sorted(set(c.__name__ for _, c in items)))
+    for key, cls in items:
+        rec.add('ReplyCode', P, nt=True, second_pass=True, key=as_int(key), value=as_int(cls.value), name=str(cls.name), cls=cls.__name__,
+                soft=issubclass(cls, exceptions.AMQPSoftError), hard=issubclass(cls, exceptions.AMQPHardError),
+                amqp=issubclass(cls, exceptions.AMQPError), base=issubclass(cls, exceptions.PAMQPException),
+                is_exc=issubclass(cls, Exception))
 
 
 # ---------------------------------------------------------------------------
@@ -512,7 +625,17 @@ def strategic_cuts(rng, n):
 @driver('C07')
 def drive_c07(ctx):
     rec, rng = ctx.rec, ctx.rng
+    from pamqp import frame as _frame
     frames = corpus_frames(ctx, 24 if ctx.quick else 330, big=not ctx.quick and ctx.shard == 0)
+    for f in small_frames(ctx):
+        try:
+            frames.append(_frame.marshal(f, 258))
+        except Exception:  # noqa
+            pass
+    if ctx.shard == 0:          # method and content-header frames beyond 128 KiB, cut at strategic points
+        from pamqp import commands as _c, header as _h
+        frames.append(_frame.marshal(_c.Connection.Secure(challenge='c' * 140000), 1))
+        frames.append(_frame.marshal(_h.ContentHeader(0, 1, _c.Basic.Properties(headers={'blob': 'h' * 135000})), 2))
     for b in frames:
         cuts = None if len(b) <= (700 if ctx.quick else 4200) else strategic_cuts(rng, len(b))
         rec.add('CutSet', ['C07'], nt=len(b) > 8, sigx='type%d' % b[0], **actions.cutset(b, cuts))
@@ -558,6 +681,11 @@ def drive_c20(ctx):
             ev = actions.peek(_body.ContentBody(bytes(rng.getrandbits(8) for _ in range(64)) * (n // 64) + b'z' * (n % 64)), 7, b'tail')
             rec.add('Peek', P, nt=True, **ev)
             ev = actions.peek(_commands.Connection.StartOk(response='r' * n), 0, b'')
+            rec.add('Peek', P, nt=True, **ev)
+    # a body frame whose bytes 4..7 spell "AMQP" (size 0x414D51, first payload octet 'P') and near misses
+    if ctx.shard == 5:
+        for n, first in ((0x414D51, b'P'), (0x414D51, b'Q'), (0x414D50, b'P')):
+            ev = actions.peek(_body.ContentBody(first + bytes((i * 7 + 3) % 251 for i in range(n - 1))), 9, b'tail')
             rec.add('Peek', P, nt=True, **ev)
     # the size-reading receiver on whole streams (Stream.tla, Mode = "peek")
     for _ in range(4 if ctx.quick else 100):
@@ -648,6 +776,9 @@ def drive_c13(ctx):
             rec.add('Construct', P, nt=True, sigx='%s.%s' % (name, a), **actions.construct(name, {a: v}))
             base = framegen.method_kwargs(rng, sm)
             rec.add('SetThenMarshal', P, nt=True, sigx='%s.%s' % (name, a), **actions.set_then_marshal(name, base, a, v))
+            # the same, with OTHER frames successfully marshalled between the mutation and the marshal (and nothing else)
+            rec.add('SetThenMarshal', P, nt=True, sigx='%s.%s' % (name, a), history='others-marshalled-in-between',
+                    **actions.set_then_marshal(name, framegen.method_kwargs(rng, sm), a, v, between=True))
             base2 = framegen.method_kwargs(rng, sm)
             base2[a] = v
             rec.add('Construct', P, nt=True, sigx='%s.%s' % (name, a), **actions.construct(name, base2))
@@ -1045,6 +1176,7 @@ def drive_c10(ctx):
     from pamqp import body, commands, header
     rec, rng = ctx.rec, ctx.rng
     P = ['C10']
+    replay_small_values(ctx, P)
     vals = wild_ints(rng) + wild_decimals(rng) + wild_datetimes(rng) + wild_misc(rng) + \
         [gen.rand_float(rng, allow_overflow=True) for _ in range(60)]
     k = 0
@@ -1118,6 +1250,7 @@ def drive_c12(ctx):
     import json
     rec, rng = ctx.rec, ctx.rng
     P = ['C12']
+    replay_small_values(ctx, P)
     # S2C: every insertion order reachable in MC_Order, built as a real dict in exactly that order
     s2c = ctx.gen.get('orders')
     if s2c:
@@ -1162,6 +1295,22 @@ ZONES_ALL = ZONES_QUICK + ['Etc/GMT+12', 'Asia/Kolkata', 'America/St_Johns', 'Eu
                            'WET8WEST7,J60/0,J300/0', 'Africa/Casablanca']
 
 
+def _no_offset_tz():
+    import datetime as dtm
+
+    class NoOffset(dtm.tzinfo):
+        # a tzinfo that knows no offset: such a datetime is NAIVE by Python's definition
+        def utcoffset(self, dt):
+            return None
+
+        def dst(self, dt):
+            return None
+
+        def tzname(self, dt):
+            return 'none'
+    return NoOffset()
+
+
 def tz_instants(rng, n):
     import datetime as dtm
     import time
@@ -1182,6 +1331,7 @@ def tz_instants(rng, n):
     for s in secs:
         t = dtm.datetime(1970, 1, 1, tzinfo=U) + dtm.timedelta(seconds=s)
         out.append(t.replace(tzinfo=None))                              # naive: read as UTC
+        out.append(t.replace(tzinfo=_no_offset_tz()))                   # naive too: tzinfo without an offset
         out.append(t.replace(tzinfo=None, fold=1))
         out.append(t)                                                   # aware UTC
         out.append(t.astimezone(dtm.timezone(dtm.timedelta(seconds=rng.choice([3600, -18000, 20700, 45900, -34200])))))
